@@ -15,7 +15,7 @@ def hexs(b):
 
 def check(ctx):
     ctx.rule = ("all byte strings of length 0..2 (exhaustive, 65 793 strings), the single-bit basis of lengths up to %s, seeded random strings up to 65 535 bytes; "
-                "valid frames (payload + computed FCS), every single-bit flip of them and burst errors up to 32 bits, every length 0..8; each buffer exact-size under ASan; "
+                "a size ladder (frames of 252..261, 65531..65544, 70000, 131071..131076 octets: valid, one bit flipped, and valid only if the covered length wrapped at 8 or 16 bits); valid frames (payload + computed FCS), every single-bit flip of them and burst errors up to 32 bits, every length 0..8; each buffer exact-size under ASan; "
                 "the harness also prints an independent table-driven CRC; Python cross-checks zlib.crc32; distinct = (op, output)" % ("2304" if ctx.tier == "thorough" else "160 and selected lengths to 2304"))
     r = fw.prepare(ctx, MODULE)
     if r is None:
@@ -84,6 +84,24 @@ def check(ctx):
         for _ in range(20):
             fl.append("crc " + hexs(bytes(rnd.getrandbits(8) for _ in range(L))))
     fw.run_suite(ctx, exe, "S-crc/frames", fl, "FCS verification")
+    # the size ladder: frames at and around every width a length could be narrowed to (8, 16 and 17 bits), valid, with one
+    # bit flipped, and "valid only when the covered length wraps": the first ((L-4) mod 2^k) octets followed by THEIR FCS
+    ladder = []
+    for L in [252, 255, 256, 257, 259, 260, 261, 65531, 65535, 65536, 65537, 65539, 65540, 65541, 65544, 70000, 131071, 131072, 131076] + ([262144, 262148, 1 << 20] if ctx.tier == "thorough" else []):
+        p = bytes(rnd.getrandbits(8) for _ in range(L - 4))
+        good = p + (zlib.crc32(p) & 0xffffffff).to_bytes(4, "little")
+        ladder.append("crc " + hexs(good))
+        for pos in (0, (L - 4) // 2, L - 5, L - 1):
+            g = bytearray(good)
+            g[pos] ^= 1 << rnd.randrange(8)
+            ladder.append("crc " + hexs(g))
+        for bits in (8, 16):
+            k = (L - 4) % (1 << bits)
+            if k != L - 4 and k + 4 <= L - 4:
+                g = bytearray(bytes(rnd.getrandbits(8) for _ in range(L)))
+                g[k:k + 4] = (zlib.crc32(bytes(g[:k])) & 0xffffffff).to_bytes(4, "little")
+                ladder.append("crc " + hexs(g))
+    fw.run_suite(ctx, exe, "S-crc/size-ladder", ladder, "FCS verification of long frames")
     ci = fw.corpus_inputs(ctx, random.Random(ctx.seed + 77), per_entry=1)
     fw.run_suite(ctx, exe, "S-crc/corpus", sorted({"crc " + (b.hex() or "-") for rt, b in ci}), "CRC-32 / FCS (corpus)")
     fw.conclude(ctx, broken)
